@@ -49,6 +49,9 @@ def gen_graph(rng):
     if rng.random() < 0.3:
         # names that contain each other
         names = rng.sample(["build", "build-all", "all", "b", "nightly", "night", "c1", "c10", "c11", "x", "ax", "a"], k)
+    if rng.random() < 0.2:
+        # names that END with the character that marks internal option sets when it comes first
+        names = [nm + "!" if rng.random() < 0.5 else nm for nm in names]
     internal = {nm for nm in names if rng.random() < 0.25}
     if len(internal) == k:
         internal.discard(names[0])
@@ -70,13 +73,14 @@ def gen_graph(rng):
     dflt = rng.choice([None, rng.choice(real)])
     opts = []
     for nm in names:
+        onm = nm.replace("!", "-bang")       # (option names are plain)
         for j in range(rng.randint(0, 2)):
-            opts.append(("--p-%s-%d" % (nm, j), nm, rng.random() < 0.5))
+            opts.append(("--p-%s-%d" % (onm, j), nm, rng.random() < 0.5))
         if rng.random() < 0.3:
             # an on/off pair writing to one destination
             # (no option name is a prefix of another one: argparse accepts unambiguous abbreviations)
-            opts.append(("--on-%s-sw" % nm, nm, "on:sw_" + nm.replace("-", "_")))
-            opts.append(("--off-%s-sw" % nm, nm, "off:sw_" + nm.replace("-", "_")))
+            opts.append(("--on-%s-sw" % onm, nm, "on:sw_" + onm.replace("-", "_")))
+            opts.append(("--off-%s-sw" % onm, nm, "off:sw_" + onm.replace("-", "_")))
     opts.append(("--g-0", None, True))
     return dict(names=names, internal=sorted(internal), parents=parents, cmds=cmds, real=real, dflt=dflt, opts=opts,
                 flags={'_help_if_no_args': rng.random() < 0.3, '_no_log_file': rng.random() < 0.3})
@@ -300,7 +304,40 @@ def judge(ctx, g, case):
         ctx.nontrivial(sig_of([g['cmds']]))
 
 
+def long_chain_case(ctx, n=1200):
+    """a chain of n commands, each naming the one before as its parent: an option of the first is accepted by the
+    last, an option from the middle by the later ones only"""
+    ctx.evaluated()
+    case = {"long_chain": n}
+    try:
+        with contextlib.redirect_stderr(io.StringIO()), contextlib.redirect_stdout(io.StringIO()):
+            ap = ArgParser(commands=[("c0", "h")] + [("c%d:c%d" % (i, i - 1), "h") for i in range(1, n)], prog="t")
+            ap.get_cmd_parser("c0").add_argument("--root", action="store_true")
+            ap.get_cmd_parser("c%d" % (n // 2)).add_argument("--mid", action="store_true")
+    except (Exception, SystemExit) as err:
+        ctx.violation("acyclic-declaration-rejected", {"type": type(err).__name__, "msg": str(err)[:150], "chain": n}, case)
+        return
+    ctx.count("commands_in_one_long_chain", n)
+    for argv, should in ((["c%d" % (n - 1), "--root", "--mid"], True), (["c%d" % (n // 2), "--mid", "--root"], True),
+                         (["c%d" % (n // 2 - 1), "--mid"], False), (["c0", "--root"], True), (["c1", "--mid"], False)):
+        try:
+            with contextlib.redirect_stderr(io.StringIO()), contextlib.redirect_stdout(io.StringIO()):
+                ap.parse_args(list(argv))
+            ok = True
+        except SystemExit:
+            ok = False
+        except Exception as err:
+            ctx.violation("parse-raises", {"argv": argv, "type": type(err).__name__, "msg": str(err)[:100]}, case)
+            continue
+        ctx.count("command_option_decisions")
+        if ok != should:
+            ctx.violation("inherited-option-rejected" if should else "option-of-unrelated-command-accepted",
+                          {"argv": argv, "chain": n}, case)
+
+
 def run_shard(ctx):
+    if ctx.shard == 0:
+        long_chain_case(ctx)
     for i in range(ctx.cases):
         g = gen_graph(ctx.rng(i))
         judge(ctx, g, {"rng_key": ctx.rng_key(i), "declarations": [c[0] for c in g['cmds']]})
@@ -310,4 +347,7 @@ def run_shard(ctx):
 
 
 def replay(ctx, case):
+    if case.get("long_chain"):
+        long_chain_case(ctx, case["long_chain"])
+        return
     judge(ctx, gen_graph(random.Random(case["rng_key"])), case)
